@@ -1138,6 +1138,9 @@ func (pc ParseContext) compileDictEntryExprs(ctx context.Context, b ast.Branch) 
 			}
 			key := pair.One("key")
 			value := pair.One("value")
+			if key == nil || value == nil {
+				return nil, fmt.Errorf("... is only allowed in a dict pattern: %s", pair.Scanner())
+			}
 			keyExpr, err := pc.CompileExpr(ctx, key.(ast.Branch))
 			if err != nil {
 				return nil, err
